@@ -61,6 +61,9 @@ impl Source {
     fn push_str_impl(&mut self, src: &str, interpret_syntax: bool) {
         let lines = src.lines().collect::<Vec<_>>();
         for (i, line) in lines.iter().enumerate() {
+            // Whether this line starts a new output line; otherwise it
+            // continues text appended earlier and must be kept verbatim.
+            let at_line_start = !self.continuing_line;
             if !self.continuing_line {
                 if !line.is_empty() {
                     for _ in 0..self.indent {
@@ -76,12 +79,18 @@ impl Source {
             }
 
             if interpret_syntax && !self.in_line_comment {
-                if trimmed.starts_with('}') && self.s.ends_with("  ") {
+                // Only indentation may be removed: never text that an earlier
+                // fragment already put on this line.
+                let only_indentation_so_far = at_line_start
+                    || self.s[self.s.rfind('\n').map_or(0, |i| i + 1)..]
+                        .bytes()
+                        .all(|b| b == b' ');
+                if trimmed.starts_with('}') && only_indentation_so_far && self.s.ends_with("  ") {
                     self.s.pop();
                     self.s.pop();
                 }
             }
-            self.s.push_str(if lines.len() == 1 {
+            self.s.push_str(if lines.len() == 1 || !at_line_start {
                 line
             } else {
                 line.trim_start()
